@@ -142,6 +142,52 @@ def monitor(ctx, extended=False):
                 ctx.violation(what, {'args': a, 'use_sf': True, 'use_sqrtcx': True}, key='slip-at-zero-speed')
             else:
                 classes.add(('vls0', type(a[0]).__name__))
+        # what a slurry object REPORTS for its own delivered concentration, after an edit history with reads in between (carrier toggled and toggled back,
+        # concentration entered directly or through the mixture density, reads of the curves at any point): the tabulated derived concentration is not
+        # below the object's Cv (Cvt <= Cvs), not above the bed concentration, and it and the delivered-concentration result are the framework's values
+        # for the object's present parameters
+        for k_ in range(ctx.n(6, 150)):
+            pp = E.slurry_params(ctx.rng)
+            both = all(pp['D50'] > max(E.dlim(pp['Dp'], *E.fluids()[f_], pp['rhos']), 5e-5) * 1.001 for f_ in ('fresh', 'salt'))
+            hist = ['built']
+            try:
+                so = E.make_slurry(pp, max_index=ctx.rng.choice([12, 30]))
+                other = 'salt' if pp['fluid'] == 'fresh' else 'fresh'
+                if k_ % 3 == 0 and both:
+                    script = ['read', ('fluid', other), ('Cv', E.pick_Cv(ctx.rng)), ('fluid', pp['fluid'])]
+                elif k_ % 3 == 1 and both:
+                    script = ['read', ('fluid', other), 'read', ('rhom', None), ('fluid', pp['fluid']), 'read', ('Cv', E.pick_Cv(ctx.rng))]
+                else:
+                    script = []
+                    for _ in range(ctx.rng.randint(2, 6)):
+                        r_ = ctx.rng.random()
+                        script.append('read' if r_ < 0.4 else ('Cv', E.pick_Cv(ctx.rng)) if r_ < 0.7 else ('rhom', None) if r_ < 0.8
+                                      else ('fluid', ctx.rng.choice(['fresh', 'salt'])) if both else 'read')
+                for op in script:
+                    if op == 'read':
+                        _ = so.Erhg_curves
+                        hist.append('curves read')
+                    elif op[0] == 'rhom':
+                        cv_ = E.pick_Cv(ctx.rng)
+                        so.rhom = so.rhol + cv_ * (so.rhos - so.rhol)
+                        hist.append(f'rhom={so.rhom!r}')
+                    else:
+                        setattr(so, op[0], op[1])
+                        hist.append(f'{op[0]}={op[1]!r}')
+                ec = so.Erhg_curves
+                for i_, v_ in list(enumerate(so.vls_list))[::3]:
+                    ctx.count('evaluations')
+                    a_ = (v_, so.Dp, so.D50, so.epsilon, so.nu, so.rhol, so.rhos, so.Cv)
+                    cvs_, e_ = ec['Cvs_from_Cvt'][i_], ec['Cvt_Erhg'][i_]
+                    wc_, we_ = F.Cvs_from_Cvt(*a_), F.Cvt_Erhg(*a_)
+                    if not (so.Cv * (1 - 1e-12) <= cvs_ <= 0.6 * (1 + 1e-12)) or not rel_close(cvs_, wc_, 1e-12) or not rel_close(e_, we_, 1e-12):
+                        ctx.violation(f'slurry object with Cv={so.Cv!r} reports derived Cvs {cvs_!r} and delivered-concentration Erhg {e_!r} at {v_} m/s; '
+                                      f'the framework gives {wc_!r} and {we_!r} for its present parameters (Cvt <= Cvs <= Cvb must hold)',
+                                      {'slurry': pp, 'history': hist, 'vls': v_}, key='slip')
+                        break
+                classes.add(('object', script[1][0] if len(script) > 1 and isinstance(script[1], tuple) else 'random'))
+            except Exception as e:   # noqa
+                ctx.violation(f'slurry object history raised {type(e).__name__}: {e}', {'slurry': pp, 'history': hist}, key='slip')
     finally:
         F.use_sf, F.use_sqrtcx = True, True
     ctx.stats['distinct_nontrivial'] = len(classes)
